@@ -115,6 +115,10 @@ pub const STATEMENTS: &[&str] = &[
     // (statuses are shown by signal name: the two systems number signals differently)
     "(gen 150000 1; echo after > pw1) | st 0; s=$?; case $s in 0) echo zero;; *) kill -l $s;; esac", "set -o pipefail; gen 150000 1 | st 0; s=$?; set +o pipefail; case $s in 0) echo zero;; *) kill -l $s;; esac",
     "trap '' PIPE; (gen 150000 1 2>&-; echo after > pw2) | st 0; s=$?; case $s in 0) echo zero;; *) kill -l $s;; esac; trap - PIPE", "{ gen 150000 1; echo after > pw3; } | st 0; s=$?; case $s in 0) echo zero;; *) kill -l $s;; esac",
+    // no descriptor at 10 or above can exist: a redirection of an open descriptor cannot be saved,
+    // so it is refused and the descriptor stays as it was (the two systems report the failed
+    // duplication with different error numbers)
+    "ulimit -n 10; { echo in; } > f8; echo $?; echo alive", "ulimit -n 10; command exec > f8 3< nofile; echo alive $?", "ulimit -n 10; echo x > f8; echo alive",
     "(trap 'echo caught > pw4' PIPE; gen 150000 1 2>&-; echo after >> pw4) | st 0; s=$?; case $s in 0) echo zero;; *) kill -l $s;; esac",
 ];
 
